@@ -4,6 +4,7 @@ package main
 
 import (
 	"fmt"
+	"go/types"
 	"strings"
 
 	"golang.org/x/tools/go/ssa"
@@ -213,19 +214,12 @@ func c08b(c *Ctx) {
 				return
 			}
 			nInline++
-			// inline: Script is a ScriptStatement whose Name.Value == entry Name; Body from parseBlockStatement
+			// inline: Script is a ScriptStatement (built in place or by a constructor helper) whose
+			// Name.Value == entry Name; Body from parseBlockStatement
 			okName, okBody := false, false
-			for _, sa := range allocsOf(fn, "ast", "ScriptStatement") {
-				if c.term(fn, sa) != f["Script"] {
-					continue
-				}
-				nm := c.fieldAtUse(fn, sa, "Name", usePt)
-				for _, ia := range allocsOf(fn, "ast", "Identifier") {
-					if c.term(fn, ia) == nm && c.fieldAtUse(fn, ia, "Value", usePt) == f["Name"] {
-						okName = true
-					}
-				}
-				body := c.fieldAtUse(fn, sa, "Body", usePt)
+			if sv := fieldValue(a, "Script", usePt); sv != nil {
+				okName = c.nodePath(fn, sv, usePt, "Name", "Value") == f["Name"]
+				body := c.nodePath(fn, sv, usePt, "Body")
 				okBody = strings.HasPrefix(body, "(*parser.Parser).parseBlockStatement@") && strings.HasSuffix(body, "#0")
 				// the block was parsed with the same script name (labels of hoisted data)
 				if bs := c.W.Method("parser", "Parser", "parseBlockStatement"); bs != nil {
@@ -253,6 +247,48 @@ func c08b(c *Ctx) {
 	for _, ci := range callsNamed(fn, "fmt.Sprintf") {
 		f, ops, ok := sprintfOf(ci.(ssa.Value))
 		if !ok || f != "%s_%s_%d" || len(ops) != 3 {
+			continue
+		}
+		// alternative: the number of entries collected so far, when every iteration of the
+		// entry loop appends exactly one entry to a list that starts empty
+		if lc, ok := ops[2].(*ssa.Call); ok && calleeName(lc) == "builtin:len" {
+			if lp, ok := lc.Call.Args[0].(*ssa.Phi); ok && isLoopHeader(lp.Block()) {
+				empty, grows := false, true
+				for i, e := range lp.Edges {
+					if !lp.Block().Dominates(lp.Block().Preds[i]) {
+						if strings.HasPrefix(c.term(fn, e), "new") || strings.Contains(c.term(fn, e), "[:0]") || strings.HasPrefix(c.term(fn, e), "slicelit") {
+							empty = true
+						}
+						if sl, ok := e.(*ssa.Slice); ok {
+							if al, ok := sl.X.(*ssa.Alloc); ok {
+								if arr, ok := deref(al.Type()).Underlying().(*types.Array); ok && arr.Len() == 0 {
+									empty = true
+								}
+							}
+						}
+						continue
+					}
+					if !c.edgeFeasible(fn, lp.Block().Preds[i], lp.Block()) {
+						continue // e.g. "neither ':' nor '{'" after a loop that only stops at one of them
+					}
+					var leaves []ssa.Value
+					phiLeaves(e, map[ssa.Value]bool{}, &leaves)
+					for _, lf := range leaves {
+						ap, isCall := lf.(*ssa.Call)
+						if !isCall || calleeName(ap) != "builtin:append" || len(appendElems(ap)) != 1 {
+							grows = false
+							continue
+						}
+						if ap.Call.Args[0] != ssa.Value(lp) {
+							grows = false // appended to something other than the list as it entered this iteration
+						}
+					}
+				}
+				if empty && grows {
+					okCounter = true
+					counter = c.term(fn, lc)
+				}
+			}
 			continue
 		}
 		ph, isPhi := ops[2].(*ssa.Phi)
